@@ -168,6 +168,29 @@ func (f *Frame) execStmt(s ast.Stmt, st *State) []Outcome {
 		in.unsupported(x.Pos(), "branch %s", x.Tok)
 	case *ast.SwitchStmt:
 		return f.execSwitch(x, st)
+	case *ast.SendStmt:
+		// channel contents are not modelled: the sent value is evaluated (safety obligations) and dropped
+		f.evalExpr(x.Value, st)
+		in.note(fmt.Sprintf("channel send at %s: channel contents are not modelled", in.W.Fset.Position(x.Pos())))
+		return normal(st)
+	case *ast.SelectStmt:
+		// select over channel SENDS and default only: any ready case may run -- every case is explored
+		var outs []Outcome
+		for _, cc := range x.Body.List {
+			clause := cc.(*ast.CommClause)
+			b := st.clone()
+			b.path = append(append([]string(nil), st.path...), fmt.Sprintf("select%d", len(outs)))
+			if clause.Comm != nil {
+				send, ok := clause.Comm.(*ast.SendStmt)
+				if !ok {
+					in.unsupported(clause.Pos(), "select with a receive case (channels are not modelled)")
+				}
+				f.evalExpr(send.Value, b)
+			}
+			outs = append(outs, f.execBlock(clause.Body, b)...)
+		}
+		in.note(fmt.Sprintf("select at %s: every send/default case explored as a nondeterministic choice; channel contents are not modelled", in.W.Fset.Position(x.Pos())))
+		return outs
 	case *ast.DeferStmt:
 		if f.isDroppedCall(x.Call) {
 			return normal(st)
